@@ -175,7 +175,8 @@ def run(ctx):
             traces.append(run_login(len(traces), st, final, sync, reset, extra={'_hop': hop, '_custom': True}))
             nhop += 1
     # a jump host with the default patterns (no message of the day: the default password_regex is documented to need help there)
-    for st, final in rng.sample([c for c in cfg2 if 'notice' not in c[0]], 200 if ctx.quick() else 1000):
+    plain2 = [c for c in cfg2 if 'notice' not in c[0]]
+    for st, final in (rng.sample(plain2, 200) if ctx.quick() else plain2):
         sync, reset = rng.random() < 0.5, rng.random() < 0.7
         traces.append(run_login(len(traces), st, final, sync, reset, extra={'_hop': True}))
         nhop += 1
